@@ -320,6 +320,8 @@ def nodes_name(prog, nid):
 
 def render_node(prog, nid, decorator="m.memento_function"):
     nd = prog["nodes"][nid]
+    if nd["kind"] == "foreign":
+        return '%s = __import__("operator").neg\n' % nd["name"]
     params = ["x"]
     if nd["posdef"] is not None:
         params.append("y=%d" % nd["posdef"])
@@ -448,6 +450,8 @@ def evaluate(prog, nid, x, y=None, depth=0, fnargs=None):
     """What an un-memoized execution returns (used for classification and for C14's expected
     outcome; the C01 oracle itself runs real Python)."""
     nd = prog["nodes"][nid]
+    if nd["kind"] == "foreign":
+        return -x
     if nd["recur"] and x <= 0:
         return [nd["name"], "base", nd["const"]]
     out = [nd["name"], x, nd["const"]]
@@ -485,6 +489,8 @@ def visible_refs(prog, nid):
     """Nodes whose names the body of nid mentions (hidden edges excluded)."""
     nd = prog["nodes"][nid]
     out = []
+    if nd["kind"] == "foreign":
+        return out      # code of another package is not tracked
     for c in nd["calls"]:
         if c["form"] != "hidden" and c["to"] not in out:
             out.append(c["to"])
@@ -537,6 +543,8 @@ def expected_outcome(prog, nid, x, fnargs=None):
     def walk(j, xx, frame, depth, outer):
         # outer: still inside the outermost invocation (the only one that received function arguments)
         nd = prog["nodes"][j]
+        if nd["kind"] == "foreign":
+            return False
         if nd["kind"] == "memento":
             frame = j
             if depth > 0:
@@ -653,7 +661,22 @@ def gen_edit(rng, prog, counter, weights=None):
             return {"kind": "retarget", "node": a, "to": b, "new": t,
                     "form": "bare" if nodes[a]["module"] == nodes[t]["module"] else "attr"}
         if kind == "swap_kind" and nd["id"] != 0:
-            return {"kind": "swap_kind", "node": nd["id"], "to_kind": "plain" if nd["kind"] == "memento" else "memento"}
+            # memento <-> plain, or the name is bound to a callable the library has no hash rule for (a function of another
+            # package) and later to a function of the program again
+            r = rng.random()
+            # (not for a name that is the target of a declared dependency - the library insists on resolving those - nor for
+            # a recursive function: its own definition would be decorated while its name is bound to the untracked object)
+            declared_target = any(c["to"] == nd["id"] and c["form"] == "declared" for a in nodes for c in a["calls"]) \
+                or in_cycle(prog, nd["id"])
+            if nd["kind"] == "memento":
+                to = "plain" if r < 0.7 or declared_target else "foreign"
+            elif nd["kind"] == "plain":
+                to = "memento" if r < 0.75 or declared_target else "foreign"
+            else:
+                # back to a memento function only: re-binding an untracked name to a PLAIN function is noticed by nothing
+                # (no rule existed, no registration happens) - outside the events the statements list
+                to = "memento"
+            return {"kind": "swap_kind", "node": nd["id"], "to_kind": to}
         if kind == "salt" and nd["kind"] == "memento" and nd["explicit"] is None:
             return {"kind": "salt", "node": nd["id"], "value": "s%d" % v}
         if kind == "explicit_body":
@@ -672,6 +695,12 @@ def gen_edit(rng, prog, counter, weights=None):
             a, b = cands[rng.randrange(len(cands))]
             return {"kind": "insert_helper", "node": a, "to": b, "value": v}
     return {"kind": "const", "node": 0, "value": counter + 2}
+
+
+def in_cycle(prog, nid):
+    """True if the function can reach itself (self-recursion or mutual recursion)."""
+    nd = prog["nodes"][nid]
+    return bool(nd["recur"]) or any(reaches(prog, c["to"], nid) for c in nd["calls"])
 
 
 def reaches(prog, a, b):
@@ -746,7 +775,13 @@ def apply_edit(prog, e):
         nd = nodes[e["node"]]
         if nd["kind"] != e["to_kind"]:
             nd["kind"] = e["to_kind"]
-            if nd["kind"] == "plain":
+            if nd["kind"] == "foreign":
+                for a in nodes:
+                    for c in a["calls"]:
+                        if c["to"] == nd["id"] and c["form"] == "declared":
+                            c["form"] = "bare"       # a declared dependency must resolve to something the library can hash
+                            touched.add(("n", a["id"]))
+            if nd["kind"] in ("plain", "foreign"):
                 nd["explicit"] = None
                 nd["salt"] = None
                 nd["fparams"] = []
